@@ -114,6 +114,42 @@ pub fn families(focus: Focus) -> Vec<Box<dyn Family>> {
             captured_case(focus, cfg, alg, &a, or, &b, nr, rng.below(3) as u8, false, out);
         },
     ));
+    v.push(family(
+        "big",
+        "G-BIG: long near-identical pairs (1000..6000 items quick, up to 70000 thorough; a few cases cross 65536 items) with <= 8 point edits, a block move or a duplicated block, distinct / small-alphabet / long-equal-run bases x {Myers, Patience} (LCS and C03's DP oracle only up to 3000 items); deadline none + 6 sampled expiry points (not C03)",
+        false,
+        1,
+        move |cfg| if cfg.tiny { 2 } else { cfg.tier.pick(48, 480) },
+        move |idx, cfg, out| {
+            let mut rng = Rng::for_case(cfg.seed, "captured.big", idx);
+            let huge = idx % 20 == 7 && !cfg.tiny;
+            let (lo, hi) = if cfg.tiny {
+                (5, 12)
+            } else if huge {
+                (65_530, 70_000)
+            } else {
+                (1000, cfg.tier.pick(6000, 30_000))
+            };
+            let (a, b) = gen::big_pair(&mut rng, lo, hi);
+            let small_enough_for_dp = a.len().max(b.len()) <= 3000;
+            let alg = if focus == Focus::C03 {
+                if small_enough_for_dp && rng.chance(1, 4) && a.len().max(b.len()) <= 1500 { Algorithm::Lcs } else { Algorithm::Myers }
+            } else if rng.chance(1, 2) {
+                Algorithm::Myers
+            } else {
+                Algorithm::Patience
+            };
+            if focus == Focus::C03 && !small_enough_for_dp {
+                return;
+            }
+            out.sample(|| format!("alg={} N={} M={} old={} new={}", alg_name(alg), a.len(), b.len(), fmt_seq(&a), fmt_seq(&b)));
+            out.count("big_cases");
+            if a.len() > 65_535 || b.len() > 65_535 {
+                out.count("cases_above_65535_items");
+            }
+            captured_case(focus, cfg, alg, &a, 0..a.len(), &b, 0..b.len(), rng.below(3) as u8, false, out);
+        },
+    ));
     v
 }
 
